@@ -69,6 +69,9 @@ def detection_inputs(draw, min_vocab=2, max_vocab=5, sum_le_one=True, same_event
             sc = draw(scores_for(nv, sum_le_one=sum_le_one, prefer=prefer))
             if draw(st.integers(0, 3)) == 0:
                 sc.append([draw(st.sampled_from([-1, -3, -4, -5])), draw(st.integers(0, 64)) / 64])  # out-of-vocabulary predicted tag, arbitrary score
+            if sc and draw(st.integers(0, 5)) == 0:
+                # the same predicted tag (same score) listed twice, e.g. two merged outputs: it still gives that one probability
+                sc.insert(draw(st.integers(0, len(sc))), list(sc[draw(st.integers(0, len(sc) - 1))]))
             return sc
 
         anns, preds = [], []
